@@ -40,6 +40,8 @@ Definition strip_kw (kw : string) (ts : list token) : option (list token) :=
       match strip_prefix (chars kw) (chars w) with Some rem => Some (relex rem SufNone ++ r) | None => None end
   | TFun w s :: r =>
       match strip_prefix (chars kw) (chars w) with Some rem => Some (relex rem (SufSort s) ++ r) | None => None end
+  | TFunBare w :: r =>
+      match strip_prefix (chars kw) (chars w) with Some rem => Some (relex rem SufBare ++ r) | None => None end
   | _ => None
   end.
 Definition is_word (w : string) (t : token) : bool := match t with TWord s => String.eqb s w | _ => false end.
@@ -494,6 +496,7 @@ Definition tok_size (t : token) : nat :=
   match t with
   | TWord s => S (String.length s)
   | TFun c _ => S (S (String.length c))
+  | TFunBare c => S (S (String.length c))
   | TVar x _ => S (S (String.length x))
   | _ => 1
   end.
@@ -559,32 +562,89 @@ Definition parse_theory_toks (ts : list token) : presult theory :=
   finish (peg_dotted peg_formula (fuel_of ts) ts) (forallb formula_in_range) (fun x => x).
 Definition parse_spec_toks (ts : list token) : presult specification :=
   finish (peg_dotted peg_annot (fuel_of ts) ts) (forallb (fun a => formula_in_range (an_formula a))) (fun x => x).
+(* arities stay N here (the wire format prints them without building a unary nat) *)
+Definition parse_ug_raw_toks (ts : list token) : presult (list raw_entry) :=
+  finish (peg_dotted peg_ug_entry (fuel_of ts) ts) (forallb raw_entry_in_range) (fun x => x).
 Definition parse_ug_toks (ts : list token) : presult user_guide :=
   finish (peg_dotted peg_ug_entry (fuel_of ts) ts) (forallb raw_entry_in_range) (map entry_of_raw).
 
 Definition on_text {A : Type} (p : list token -> presult A) (s : string) : presult A :=
   match lex s with Some ts => p ts | None => PR_err end.
-(* formula_eoi = formula ~ EOI has no leading `&ANY?`: layout before the formula is not skipped; and it
-   is the one complete parser where the `keyword` rule can fire (a keyword-named symbolic constant as
-   the very last characters of the input is refused) *)
+(* formula_eoi = formula ~ EOI has no leading `&ANY?`.  pest generates `prefix*` as an
+   optional sequence  prefix, then repeatedly (skip, prefix),  and inserts the implicit skip only BETWEEN sequence elements, so
+   when the text begins with layout the first `prefix` is tried on the layout, fails, `prefix*` is empty,
+   the skip runs and the first primary is parsed directly: " p and not q" is accepted, " not p" and
+   " forall X p(X)" are rejected, " forallX(a)" is the atom forallX(a).  (Inside theories etc. a formula
+   always starts after a skip, so this only concerns the stand-alone formula parser.)
+   It is also the one complete parser where the `keyword` rule can fire (a keyword-named symbolic
+   constant as the very last characters of the input is refused: "p or and" is rejected, "p or and "
+   accepted); see [keyword_rule] below. *)
+Definition peg_formula_lead (fuel : nat) (ts : list token) : res formula :=
+  match fuel with
+  | O => Oof
+  | S f =>
+      match f_primary (peg_formula f) f ts with
+      | Ok t r =>
+          match f_tail (peg_formula f) f f r with
+          | Ok more r' => match pratt_formula (PPrim t :: more) with Some t' => Ok t' r' | None => Fail end
+          | Fail => Fail
+          | Oof => Oof
+          end
+      | Fail => Fail
+      | Oof => Oof
+      end
+  end.
+(* the `keyword` rule, for the stand-alone formula parser: the last token is a word that ends exactly
+   at the end of the input (appending a letter extends the last token instead of adding one) and the
+   parse would consume it as a keyword-named symbolic constant (the rightmost leaf of the tree): then
+   symbolic_constant fails there and, because nothing else can consume the word, the parse fails *)
 Definition is_keyword_word (w : string) : bool :=
   String.eqb w "and" || String.eqb w "or" || String.eqb w "not" || String.eqb w "forall" || String.eqb w "exists".
-Definition ends_with_keyword (s : string) (ts : list token) : bool :=
-  match rev ts, rev (chars s) with
-  | TWord w :: _, c :: _ => is_keyword_word w && is_wordchar c
+Definition ends_at_word (s : string) : bool :=
+  match lex s, lex (s ++ "z") with
+  | Some ts, Some ts' =>
+      Nat.eqb (List.length ts) (List.length ts')
+      && match rev ts, rev ts' with
+         | TWord a :: _, TWord b :: _ => negb (String.eqb a b)
+         | _, _ => false
+         end
   | _, _ => false
   end.
+Definition last_gterm_symbol (t : gterm) : option string :=
+  match t with GSym (SSym s) => Some s | _ => None end.
+Definition last_symbol_atomic (a : aformula) : option string :=
+  match a with
+  | AAtom p [] => Some p
+  | ACmp t gs => match rev gs with g :: _ => last_gterm_symbol (gterm_of g) | [] => last_gterm_symbol t end
+  | _ => None
+  end.
+Fixpoint last_symbol (f : formula) : option string :=
+  match f with
+  | FAtomic a => last_symbol_atomic a
+  | FNot g => last_symbol g
+  | FQ _ _ g => last_symbol g
+  | FBin _ _ r => last_symbol r
+  end.
+Definition keyword_at_end (f : formula) : bool :=
+  match last_symbol f with Some w => is_keyword_word w | None => false end.
 Definition parse_formula_str (s : string) : presult formula :=
-  match chars s with
-  | c :: _ => if is_space c || Ascii.eqb c "%"%char then PR_err
-              else match lex s with
-                   | Some ts => if ends_with_keyword s ts then PR_err else parse_formula_toks ts
-                   | None => PR_err
-                   end
-  | [] => PR_err
+  match lex s with
+  | Some ts =>
+      match chars s with
+      | c :: _ =>
+          let r := if is_space c || Ascii.eqb c "%"%char then peg_formula_lead (fuel_of ts) ts
+                   else peg_formula (fuel_of ts) ts in
+          match r with
+          | Ok f [] => if keyword_at_end f && ends_at_word s then PR_err else finish r formula_in_range (fun x => x)
+          | _ => finish r formula_in_range (fun x => x)
+          end
+      | [] => PR_err
+      end
+  | None => PR_err
   end.
 Definition parse_theory_str := on_text parse_theory_toks.
 Definition parse_spec_str := on_text parse_spec_toks.
 Definition parse_ug_str := on_text parse_ug_toks.
+Definition parse_ug_raw_str := on_text parse_ug_raw_toks.
 
-(* EXTRACT: parse_formula_str parse_theory_str parse_spec_str parse_ug_str parse_formula_toks parse_theory_toks parse_spec_toks parse_ug_toks FolLex.lex FolLex.is_symbol_name FolLex.is_variable_name *)
+(* EXTRACT: parse_ug_raw_str parse_formula_str parse_theory_str parse_spec_str parse_ug_str parse_formula_toks parse_theory_toks parse_spec_toks parse_ug_toks FolLex.lex FolLex.is_symbol_name FolLex.is_variable_name *)
